@@ -182,7 +182,6 @@ func init() {
 	register(histProfile("C01", []string{"C01"}, 1500, 60000, histOpts{maxNodes: 6, pCanary: 0.4, fancy: []float64{0.3, 0.7}, faults: true}, "C01.create", "C01.dup", "C01.ineligible"))
 	register(histProfile("C09", []string{"C09"}, 1500, 60000, histOpts{maxNodes: 8, pCanary: 0.2, fancy: []float64{0, 0.3}, faults: true}, "C09.creates", "C09.spacing", "C09.update-del"))
 	register(histProfile("C12", []string{"C12"}, 1200, 50000, histOpts{maxNodes: 4, pCanary: 0.4, fancy: []float64{0, 0.3}, faults: true, twoEDS: true, migration: true}, "C12.foreign-listed", "C12.write"))
-	register(histProfile("C13", []string{"C13"}, 1500, 60000, histOpts{maxNodes: 4, pCanary: 0.5, fancy: []float64{0.3, 0.7}, faults: true}, "C13.create", "C13.delete", "C13.podtemplate"))
 	register(histProfile("C14", []string{"C14"}, 1500, 60000, histOpts{maxNodes: 6, pCanary: 0.5, fancy: []float64{0, 0.3}, faults: true}, "C14.eds", "C14.ers"))
 	register(histProfile("C02", []string{"C02"}, 800, 40000, histOpts{maxNodes: 6, pCanary: 0.5, fancy: []float64{0, 0.3, 0.7}, faults: true, sane: true, c02: true, migration: true}, "C02.converged"))
 }
@@ -205,6 +204,7 @@ func genC07(r *rand.Rand, tier string, idx int) *World {
 	w.Cfg.CLI = false
 	w.Cfg.TemplateEdits = false
 	w.Extra["failSteps"] = pick(r, "20", "40", "80")
+	w.Extra["staleStatus"] = pick(r, "0", "0", "1")
 	c := w.EDS[0].Strategy.Canary
 	if c.Duration != "" {
 		c.Duration = pick(r, "1m", "3m", "10m", "10m")
@@ -254,6 +254,14 @@ func bodyC07(s *Sim) {
 		default:
 			s.RunCLI("canary-fail", key)
 		}
+	}
+	if s.W.Extra["staleStatus"] == "1" {
+		// the replica-set controller lags: the failed replica set's status still shows its
+		// pods while more than two minutes pass
+		s.RunTask(CtrlEDS, key)
+		s.Advance(time.Duration(125+s.rngEnv.IntN(120)) * time.Second)
+		s.RunTask(CtrlEDS, key)
+		s.RunTask(CtrlEDS, key)
 	}
 	// targeted-fault phase: only reconciles, kubelet and clock
 	steps := 40
@@ -954,4 +962,31 @@ func init() {
 	register(&Profile{Name: "C05", Decide: []string{"C05"}, Quick: 2500, Thorough: 120000, Gen: genC05, Body: bodyC05,
 		NonVacuous: []string{"C05.switch"}, Chunk: 50,
 		Rule: "A canary is started through the real reconcilers (strategy auto or manual, duration 1-10 min, noRestartsDuration unset/0/positive); then a focused seeded phase of kubectl-eds canary pause/unpause/validate/fail, user edits of the canary-paused / canary-unpaused / canary-valid annotations, container restarts, replica-set syncs, ExtendedDaemonSet reconciles, stalls and clock jumps to boundary instants (creation+duration, last restart+noRestartsDuration, each at -1s, exactly, +1ns, +1s), optionally the recorded active replica set is deleted; finally the clock passes the end of the duration and the ExtendedDaemonSet is reconciled. Every change of status.activeReplicaSet is judged against the promotion rule. " + histRule})
+}
+
+// C13: template edit histories, with every third run a failed-canary history (clean-up guards
+// of a failed replica set).
+func init() {
+	hp := histProfile("C13", []string{"C13"}, 1500, 60000, histOpts{maxNodes: 4, pCanary: 0.5, fancy: []float64{0.3, 0.7}, faults: true}, "C13.create", "C13.delete", "C13.podtemplate")
+	gen := hp.Gen
+	hp.Gen = func(r *rand.Rand, tier string, idx int) *World {
+		if idx%3 == 2 {
+			w := genC07(r, tier, idx)
+			w.Extra["body"] = "c07"
+			return w
+		}
+		return gen(r, tier, idx)
+	}
+	hp.Body = func(s *Sim) {
+		if s.W.Extra["body"] == "c07" {
+			bodyC07(s)
+			return
+		}
+		s.Setup()
+		s.Chaos()
+		if !s.W.Cfg.NoQuiesce {
+			s.Quiesce()
+		}
+	}
+	register(hp)
 }
